@@ -1215,7 +1215,56 @@ func (c *fnCtx) stdcall(x *ast.CallExpr, fn *types.Func) (string, bool) {
 	case "bytes.Equal":
 		return "(" + c.expr(x.Args[0]) + " == " + c.expr(x.Args[1]) + ")", true
 	}
+	if s, ok := c.stdBinaryAppend(x, fn); ok {
+		return s, true
+	}
 	return "", false
+}
+
+// binary.LittleEndian.AppendUintN(b, v) / binary.BigEndian.AppendUintN(b, v), N = 16, 32, 64: `b ++ Go.leN v` / `b ++ Go.beN v`
+// (GoPrelude: the N/8 bytes of v, least / most significant first). Only when the receiver is exactly the package variable
+// binary.LittleEndian / binary.BigEndian (a value of the unexported types littleEndian / bigEndian); anything else of
+// encoding/binary stays outside the subset.
+func (c *fnCtx) stdBinaryAppend(x *ast.CallExpr, fn *types.Func) (string, bool) {
+	if fn.Pkg().Path() != "encoding/binary" {
+		return "", false
+	}
+	sel, ok := unparen(x.Fun).(*ast.SelectorExpr)
+	if !ok {
+		return "", false
+	}
+	rsel, ok := unparen(sel.X).(*ast.SelectorExpr)
+	if !ok {
+		return "", false
+	}
+	rv, ok := c.info.Uses[rsel.Sel].(*types.Var)
+	if !ok || rv.Pkg() == nil || rv.Pkg().Path() != "encoding/binary" || rv.Parent() != rv.Pkg().Scope() {
+		return "", false
+	}
+	var order string
+	switch rv.Name() {
+	case "LittleEndian":
+		order = "le"
+	case "BigEndian":
+		order = "be"
+	default:
+		return "", false
+	}
+	var width string
+	switch fn.Name() {
+	case "AppendUint16":
+		width = "16"
+	case "AppendUint32":
+		width = "32"
+	case "AppendUint64":
+		width = "64"
+	default:
+		return "", false
+	}
+	if len(x.Args) != 2 {
+		return "", false
+	}
+	return "(" + c.expr(x.Args[0]) + " ++ Go." + order + width + " " + c.argValue(x.Args[1]) + ")", true
 }
 
 // ---------------------------------------------------------------- package-level tables
